@@ -480,6 +480,36 @@ def inline_helpers(doc, log):
         for x in list(walk(fn["body"])):
             if x.get("k") == "block":
                 process_block(x, own)
+    # a helper whose every call site was inlined no longer exists as a separate unit: drop its definition, so that rules which enumerate
+    # functions (writers of a field, panic sites, ..) see its statements where they execute - inside the callers
+    inlined = {l.split("`")[1] for l in log if l.startswith("helper `")}
+    if inlined:
+        still = set()
+        for path, owner, is_trait, fn in all_fns(doc):
+            if fn.get("body") is None or fn["name"] in inlined:
+                continue
+            for x in walk(fn["body"]):
+                if x.get("k") == "call" and isinstance(x.get("f"), dict) and x["f"].get("k") == "path" and x["f"]["p"].split("::")[-1].split("<")[0] in inlined:
+                    still.add(x["f"]["p"].split("::")[-1].split("<")[0])
+                if x.get("k") == "mcall" and x.get("name") in inlined and isinstance(x.get("recv"), dict) and x["recv"].get("k") == "path" and x["recv"].get("p") == "self":
+                    still.add(x["name"])
+        gone = inlined - still
+
+        def prune(items):
+            out = []
+            for it in items:
+                if it.get("k") == "fn" and it["name"] in gone and it["name"] in free:
+                    continue
+                if it.get("k") == "impl":
+                    it["fns"] = [f for f in it["fns"] if not (f["name"] in gone and (it.get("self_name"), f["name"]) in methods)]
+                if it.get("k") == "mod" and it.get("items"):
+                    it["items"] = prune(it["items"])
+                out.append(it)
+            return out
+        for fl in doc["files"]:
+            fl["items"] = prune(fl["items"])
+        if gone:
+            log.append("helper definitions folded into their callers: %s" % sorted(gone))
 
 
 def normalise(doc):
